@@ -738,6 +738,7 @@ func init() {
 		}
 		doubleFailure(c)
 		parkedWatchReconnect(c)
+		flowCase(c, "stop", 1040)
 		outage(c, 1, 0)
 		outage(c, 3, 0)
 		outage(c, 1, 1040)
